@@ -87,6 +87,7 @@ class OpTrace:
         self.kdf_calls = 0
         self.connects = 0
         self.clock_ft = 0
+        self.clock_ft_end = 0  # the wall clock when the call returned (it may move while a call runs)
         self.blob_spec: t.Optional[dict] = None
 
 
@@ -444,6 +445,7 @@ def execute_plan(plan: dict, kdf_limit: int = 300, keep_events: bool = False) ->
                         else:
                             ot.outcome = drive.classify(lambda: offline.call_api(world, "sync", name, *args, **kw))
                         ot.kdf_calls = kb.count
+                        ot.clock_ft_end = world.clock.filetime()
                         world.log("op.return", i, ot.outcome.brief())
                         ot.return_seq = world.seq
                         tr.ops.append(ot)
@@ -465,6 +467,7 @@ def execute_plan(plan: dict, kdf_limit: int = 300, keep_events: bool = False) ->
                                     ot.outcome = drive.Outcome("raise", exc=getattr(ot, "prep_exc", None) or ValueError("source blob missing"))
                                 else:
                                     ot.outcome = drive.classify(lambda: offline.call_api(world, "sync", name, *args, **kw))
+                                ot.clock_ft_end = world.clock.filetime()
                                 world.log("op.return", ot.idx, ot.outcome.brief())
                                 ot.return_seq = world.seq
 
@@ -514,6 +517,7 @@ def execute_plan(plan: dict, kdf_limit: int = 300, keep_events: bool = False) ->
                                 ot.outcome = drive.Outcome("budget", exc=e)
                             except Exception as e:  # noqa: BLE001
                                 ot.outcome = drive.Outcome("raise", exc=e)
+                            ot.clock_ft_end = world.clock.filetime()
                             world.log("op.return", ot.idx, ot.outcome.brief())
                             ot.return_seq = world.seq
 
